@@ -252,7 +252,17 @@ func checkC04(c caseC04) (Outcome, error) {
 		ctxInfo := func() string {
 			return fmt.Sprintf("history:%s\nfile before: %s\nfile after:  %s", history, quoteShort(before), quoteShort(after))
 		}
-		if res.Err != nil {
+		if model.Unspecified && res.Err == nil {
+			// the properties leave open what this command does when it does not fail: nothing is
+			// asserted for the step, the history continues from what klog wrote (if it parses)
+			history += " -> ok (outcome not specified)"
+			out.Label("unspecified:" + st.Cmd.Kind)
+			records, _, errs := parser.NewSerialParser().Parse(after)
+			if errs != nil {
+				return out, fmt.Errorf("step %d: the file does not parse after a successful command (line %d: %s)\n%s", si, errs[0].LineNumber(), errs[0].Code(), ctxInfo())
+			}
+			state = docFromKlog(records)
+		} else if res.Err != nil {
 			history += fmt.Sprintf(" -> failed (%s: %s)", res.Err.Error(), res.Err.Details())
 			if after != before {
 				return out, fmt.Errorf("step %d: the command failed but changed the file\n%s", si, ctxInfo())
